@@ -4,7 +4,11 @@ Domain: an AuthStrategy subclass whose get_sources() is a generator over 0-8 scr
 sources; each source either returns a generated value ([] / list of method names / other
 plain values: "succeeds" = authenticate() returns) or raises a generated exception
 (AuthenticationException, BadAuthenticationType, PartialAuthentication, SSHException,
-ValueError, OSError, EOFError, socket.timeout, KeyError, a custom Exception subclass).
+ValueError, OSError, EOFError, socket.timeout, KeyError, RuntimeError, IndexError, a custom Exception subclass).
+HOW the exception was constructed is a dimension of its own: with one message string (possibly empty), or with a generated
+argument TUPLE of 0-3 values (str / int / None / bytes / nested list) - EOFError(), AuthenticationException(), RuntimeError(),
+OSError(), SSHException(5, None) ...: `e.args` may be empty or hold non-strings, str(e) may be ''.  Whatever a source raises,
+authenticate() records that very instance and goes on; it never lets another exception type escape.
 Both the pulls from the generator and the authenticate() calls are logged.
 What get_sources() produces are ATTEMPTS, not necessarily distinct objects: an attempt may be a fresh source
 object, the SAME object as an earlier attempt (a strategy that retries a source: each attempt has its own scripted
@@ -33,7 +37,9 @@ from hypothesis import strategies as st
 PROPERTY = "C44"
 LEVEL = "exploration"
 RULE = (
-    "hypothesis-generated scripts of 0-8 auth sources, each returning a generated value or raising one of 10 exception types, "
+    "hypothesis-generated scripts of 0-8 auth sources, each returning a generated value or raising one of 12 exception types "
+    "constructed with one message string or with a generated argument tuple of 0-3 str/int/None/bytes/list values (argument-less "
+    "exceptions, non-string args; classes exc-args:*), "
     "fed through a generator-based get_sources with call/pull logging; an attempt is a fresh object, the same object as an earlier "
     "attempt (own outcome per attempt), an equal-but-distinct object (value __eq__/__hash__) or an unhashable one, or an instance of a stock "
     "paramiko.auth_strategy class (NoneAuth, Password [transport or getter raises], InMemoryPrivateKey, OnDiskPrivateKey, subclasses, one stock object "
@@ -41,7 +47,7 @@ RULE = (
     "before the outcome is decided (first success preceded by a failure, or >= 2 failures and no success) ; distinct by SHA-1 of the script"
 )
 
-EXC_NAMES = ["AuthenticationException", "BadAuthenticationType", "PartialAuthentication", "SSHException", "ValueError", "OSError", "EOFError", "timeout", "KeyError", "Custom"]
+EXC_NAMES = ["AuthenticationException", "BadAuthenticationType", "PartialAuthentication", "SSHException", "ValueError", "OSError", "EOFError", "timeout", "KeyError", "Custom", "RuntimeError", "IndexError"]
 
 ok_value = st.one_of(
     st.just([]),
@@ -52,10 +58,18 @@ ok_value = st.one_of(
     st.just(False),
     st.text(max_size=5),
 )
+# constructor arguments of a raised exception: a str = exactly that one message argument; a list = the argument tuple
+exc_arg = st.one_of(
+    st.text(max_size=8), st.integers(-3, 300), st.none(), st.binary(max_size=4), st.just("Authentication failed."), st.just(""),
+    st.lists(st.one_of(st.text(max_size=3), st.integers(0, 9)), max_size=2),
+)
+exc_args = st.lists(exc_arg, max_size=3)
 source_spec = st.one_of(
     st.tuples(st.just("ok"), ok_value),
     st.tuples(st.just("raise"), st.sampled_from(EXC_NAMES), st.text(max_size=8)),
     st.tuples(st.just("raise"), st.sampled_from(EXC_NAMES), st.just("")),
+    st.tuples(st.just("raise"), st.sampled_from(EXC_NAMES), exc_args),
+    st.tuples(st.just("raise"), st.sampled_from(EXC_NAMES), st.just([])),
 )
 # which object an attempt uses: None = a fresh plain source; "same:n" = shared object n of this call (attempted again);
 # "equal:n" = a fresh object with value equality (all "equal:n" of one n compare and hash equal); "unhash:n" = ditto, unhashable
@@ -100,11 +114,30 @@ def _pkey():
     return _PKEY[0]
 
 
+_PLAIN = {"ValueError": ValueError, "OSError": OSError, "EOFError": EOFError, "KeyError": KeyError, "RuntimeError": RuntimeError, "IndexError": IndexError}
+
+
+def _nargs(msg):
+    """number of constructor arguments of a scripted exception (a str stands for one message argument)"""
+    return len(msg) if isinstance(msg, (list, tuple)) else 1
+
+
 def _make_exc(name, msg):
     import socket
 
     from paramiko import ssh_exception as se
 
+    if isinstance(msg, (list, tuple)):
+        # an argument tuple: the class is called with exactly these arguments (none at all for an empty tuple)
+        args = tuple(msg)
+        if name == "BadAuthenticationType":  # its constructor demands (explanation, types)
+            return se.BadAuthenticationType(args[0] if args else "", list(args[1:]) or ["publickey"])
+        if name == "PartialAuthentication":  # its constructor demands (types)
+            return se.PartialAuthentication([a for a in args if isinstance(a, str)] or ["password"])
+        cls = _PLAIN.get(name) or {"AuthenticationException": se.AuthenticationException, "SSHException": se.SSHException, "timeout": socket.timeout, "Custom": _Custom}[name]
+        return cls(*args)
+    if name in ("RuntimeError", "IndexError"):
+        return _PLAIN[name](msg)
     if name == "AuthenticationException":
         return se.AuthenticationException(msg)
     if name == "BadAuthenticationType":
@@ -183,6 +216,12 @@ def _one_call(ctx, holder, script, jcase, call_no, ncalls):
             classes.append("stock-source:password-getter-raises")
     if len(kinds) >= 2:
         classes.append("source-classes-mixed:%d" % len(kinds))
+    for i in range(upto_ + 1):
+        if script[i][0] == "raise":
+            na = _nargs(script[i][2])
+            classes.append("exc-args:%s" % ("none" if na == 0 else ("one" if na == 1 else "several")))
+            if isinstance(script[i][2], (list, tuple)) and any(not isinstance(a, str) for a in script[i][2]):
+                classes.append("exc-args:non-string-argument")
     classes = sorted(set(classes))
     if call_no == 0:
         if ncalls > 1:
